@@ -2,7 +2,7 @@ SPECIFICATION Spec
 CONSTANTS
   HANDLES = {1, 2}
   TIMES = {0, 1, 2}
-  MAXWALL = 2
+  MAXWALL = 1
   ITEMLISTS <- ItemLists
 INVARIANTS TypeOK ExLastIsMax TimeNotBelowEx TimeAddsElapsed SharedIffCloned
 PROPERTIES Monotone LateIgnored UntimedIgnored NewerAdopted EqualTimeRestartsElapsed ObservedSharing CloneNew
